@@ -80,6 +80,8 @@ func opKey(op blockOp) string {
 		if strings.HasPrefix(s, "call:protocol.(*Protocol).DoneChan(") {
 			return "DoneChan()"
 		}
+		// a captured variable and a local read the same
+		s = strings.TrimPrefix(s, "free:")
 		// keep the trailing field path of the channel
 		if i := strings.LastIndex(s, "."); i >= 0 && !strings.HasPrefix(s, "call:") {
 			return s[i+1:]
@@ -94,7 +96,9 @@ func opKey(op blockOp) string {
 		parts = append(parts, "<-"+short(r))
 	}
 	if op.kind == "wait" {
-		parts = append(parts, op.desc)
+		// WaitGroup.Wait(<receiver expression>.waitGroup) → the field only
+		d := strings.TrimSuffix(strings.TrimPrefix(op.desc, "WaitGroup.Wait("), ")")
+		parts = append(parts, "WaitGroup.Wait("+short(d)+")")
 	}
 	if op.dflt {
 		parts = append(parts, "default")
@@ -104,9 +108,10 @@ func opKey(op blockOp) string {
 
 var closureIdxRe = regexp.MustCompile(`\$\d+`)
 
-// stableClosureNames drops the ordinal go/ssa gives anonymous functions (f$3 → f$): adding or removing an unrelated
-// closure in the same function renumbers them, and keys must not depend on that.
-func stableClosureNames(s string) string { return closureIdxRe.ReplaceAllString(s, "$") }
+// stableClosureNames drops the suffix go/ssa gives anonymous functions (f$3 → f): adding or removing an unrelated
+// closure renumbers them, and turning a deferred func literal into a deferred method call moves the operation from
+// f$1 to f; keys name the enclosing declared function and must not depend on either.
+func stableClosureNames(s string) string { return closureIdxRe.ReplaceAllString(s, "") }
 
 func stableFuncKey(fn *ssa.Function) string { return stableClosureNames(ssaFuncKey(fn)) }
 
@@ -401,6 +406,26 @@ func (c *Ctx) opSites(op blockOp, inCtx func(*ssa.Function) bool, depth int) []o
 		}
 		out = append(out, sites...)
 	}
+	// the helper handed over as a function value (once.Do(c.cleanup)): judged at the hand-over site
+	for _, ci := range funcValueUsesInPkg(op.fn) {
+		if _, isGo := ci.(*ssa.Go); isGo || !inCtx(ci.Parent()) {
+			continue
+		}
+		cn := calleeName(ci.Common())
+		if cn != "sync.(*Once).Do" {
+			return []opSite{{op}}
+		}
+		op2 := op
+		op2.fn = ci.Parent()
+		op2.instr = ci
+		sites := c.opSites(op2, inCtx, depth-1)
+		for _, st := range sites {
+			if _, ok := auditTable[opKey(st.op)]; !ok {
+				return []opSite{{op}}
+			}
+		}
+		out = append(out, sites...)
+	}
 	if len(out) == 0 {
 		return []opSite{{op}}
 	}
@@ -520,10 +545,10 @@ func (c *Ctx) handlerRoots() []*ssa.Function {
 
 func (c *Ctx) checkCloseOwners() {
 	owners := map[string][]string{
-		".doneChan":     {"protocol.(*Protocol).Start$$"},
-		".stopChan":     {"protocol.(*Protocol).Stop$"},
-		".recvDoneChan": {"protocol.(*Protocol).recvLoop$"},
-		".sendDoneChan": {"protocol.(*Protocol).sendLoop$"},
+		".doneChan":     {"protocol.(*Protocol).Start"},
+		".stopChan":     {"protocol.(*Protocol).Stop"},
+		".recvDoneChan": {"protocol.(*Protocol).recvLoop"},
+		".sendDoneChan": {"protocol.(*Protocol).sendLoop"},
 	}
 	n := 0
 	for _, fn := range c.pkgFuncs("protocol") {
